@@ -338,6 +338,138 @@ def run_build(ctx, n):
         ctx.corr("Tree.digest(buildTree files)~build()", case, {"oid": v["oid"], "bytes": v["bytes"]}, {"oid": ans["oid"], "bytes": ans["bytes"]})
 
 
+_CHUNK = 2**20  # the library reads (and, for the text-normalising flavour, converts) files in 1 MiB pieces
+_FLAVOURS = ["md5-dos2unix", "md5", "sha256"]
+_LARGE_KINDS = ["crlf-text", "lf-text", "binary-with-crlf"]
+
+
+def _large_content(rng, kind, size):
+    """a file body above the large-file threshold; no CRLF pair straddles a 1 MiB boundary, and text/binary-ness is the same
+    in every piece, so that 'convert the whole file' and 'convert piece by piece' are the same function of the bytes"""
+    if kind == "binary-with-crlf":
+        block = b"\x00\x01bin\r\n" + bytes(rng.randrange(256) for _ in range(48)) + b"\r\n\x00tail\r\n"
+        body = bytearray((block * (size // len(block) + 1))[:size])
+    else:
+        eol = b"\r\n" if kind == "crlf-text" else b"\n"
+        lines = [bytes(rng.choice(b"abcdefgh,;01 ") for _ in range(rng.randrange(3, 40))) + eol for _ in range(rng.randrange(1, 6))]
+        block = b"".join(lines)
+        body = bytearray((block * (size // len(block) + 1))[:size])
+        if kind == "crlf-text" and rng.random() < 0.5:
+            body += b"last line without end"
+    for cut in range(_CHUNK, len(body), _CHUNK):
+        if body[cut - 1: cut + 1] == b"\r\n":
+            body[cut - 1: cut + 1] = b"--"
+    return bytes(body)
+
+
+def ref_file_digest(name, content):
+    """independent per-file digest: what `name` means for the bytes of one file, whatever else is in the directory"""
+    import hashlib
+
+    if name == "md5-dos2unix":
+        is_text = 0 not in content[:512]
+        assert all((0 not in content[c: c + 512]) == is_text for c in range(0, len(content), _CHUNK))
+        return md5hex(content.replace(b"\r\n", b"\n") if is_text else content)
+    if name == "md5":
+        return md5hex(content)
+    return hashlib.new(name, content).hexdigest()
+
+
+def ref_listing_oid(name, digests):
+    """independent encoder of the listing for any file-hash flavour (both md5 flavours are stored under the key 'md5')"""
+    field = "md5" if name == "md5-dos2unix" else name
+    lst = sorted(({field: v, "relpath": "/".join(k)} for k, v in digests.items()), key=lambda e: e["relpath"])
+    return md5hex(json.dumps(lst, sort_keys=True).encode("utf-8")) + ".dir"
+
+
+def run_build_flavours(ctx, n):
+    """staging real directories under every file-hash flavour x 0..3 files above the large-file threshold at one directory
+    level x kind of large body (CRLF text / LF text / binary holding CRLF): every entry carries the file's own digest (an
+    independent per-file reference), the identifier is the identifier of that listing, and neither changes with the number of
+    hashing threads, the large-file threshold, the presence of large siblings or a cold/warm hash-state cache"""
+    import inspect
+
+    from dvc_objects.fs.local import LocalFileSystem
+
+    from dvc_data.hashfile import build as build_mod
+    from dvc_data.hashfile.db.local import LocalHashFileDB
+    from dvc_data.hashfile.state import State
+
+    rng = ctx.rng
+    fs = LocalFileSystem()
+    has_threshold = "large_file_threshold" in inspect.signature(build_mod._build_files).parameters
+    for i in range(n):
+        # the grid flavour x number of large files is walked systematically; everything else is drawn
+        name = _FLAVOURS[i % len(_FLAVOURS)]
+        nlarge = [2, 3, 1, 0][(i // len(_FLAVOURS)) % 4]
+        root = ctx.mkdtemp()
+        files = gen.rand_tree(rng, max_files=4)
+        level = rng.choice(sorted({k[:-1] for k in files}))
+        kinds = rng.sample(_LARGE_KINDS, len(_LARGE_KINDS))[:nlarge]
+        big = []
+        for j, kind in enumerate(kinds):
+            key = (*level, "big-%d.csv" % j)
+            files[key] = _large_content(rng, kind, _CHUNK + 1 + rng.randrange(0, 3 * _CHUNK // 2))
+            big.append(key)
+        ws = os.path.join(root, "ws")
+        gen.materialize(ws, files, rng)
+        state_mode = rng.choice(["nostate", "cold", "warm"])
+        state = State(root_dir=root, tmp_dir=os.path.join(root, "tmp")) if state_mode != "nostate" else None
+        odb = LocalHashFileDB(fs, os.path.join(root, "odb"), **({"state": state} if state else {}))
+        jobs = rng.choice([None, 1, 2, 8])
+        case = {"build_flavours": True, "name": name, "jobs": jobs, "state": state_mode, "large": dict(zip(("/".join(k) for k in big), kinds)),
+                "files": {"/".join(k): (v.hex() if len(v) < 64 else "len:%d md5:%s" % (len(v), md5hex(v))) for k, v in files.items()}}
+
+        def f():
+            res = {"builds": []}
+            for _ in range(2 if state_mode == "warm" else 1):
+                _, meta, obj = build_mod.build(odb, ws, fs, name, checksum_jobs=jobs)
+                res["builds"].append({"oid": obj.hash_info.value, "tree": canon_impl_tree(obj), "nfiles": meta.nfiles})
+            # the directory level holding the large files, hashed afresh (no cache) under other configurations
+            d = os.path.join(ws, *level)
+            here = sorted(k[-1] for k in files if k[:-1] == level)
+            infos = {fn: fs.info(os.path.join(d, fn)) for fn in here}
+            res["level"] = {}
+            confs = [("jobs=%s" % j, {"jobs": j}) for j in (1, 2, 8)]
+            if has_threshold:
+                confs += [("threshold=%d,jobs=%s" % (t, jobs), {"jobs": jobs, "large_file_threshold": t}) for t in (2**10, 2**20, 2**40)]
+            for label, kw in confs:
+                objs = build_mod._build_files(d, dict(infos), fs, name, dry_run=True, **kw)
+                res["level"][label] = {fn: [hi.name, hi.value] for fn, (_m, hi) in objs.items()}
+            for key in big[:1]:
+                objs = build_mod._build_files(d, {key[-1]: infos[key[-1]]}, fs, name, dry_run=True, jobs=jobs)
+                res["level"]["alone:" + key[-1]] = {fn: [hi.name, hi.value] for fn, (_m, hi) in objs.items()}
+            return res
+
+        k, v = safe_call(f)
+        if state:
+            state.close()
+        ctx.case(case)
+        ctx.count("build_flavours:name=%s" % name)
+        ctx.count("build_flavours:large=%d" % nlarge)
+        ctx.count("build_flavours:state=%s" % state_mode)
+        for kind in kinds:
+            ctx.count("build_flavours:large-kind=%s" % kind)
+        if k != "ok":
+            ctx.oracle(False, case, {"why": "build raised", "impl": v})
+            continue
+        digests = {kk: ref_file_digest(name, c) for kk, c in files.items()}
+        exp_tree = dict(sorted(("/".join(kk), [name, d]) for kk, d in digests.items()))
+        exp_oid = ref_listing_oid(name, digests)
+        for nth, b in enumerate(v["builds"]):
+            wrong = {p: [b["tree"].get(p), e] for p, e in exp_tree.items() if b["tree"].get(p) != e}
+            ctx.oracle(b["tree"] == exp_tree and b["oid"] == exp_oid and b["nfiles"] == len(files), case,
+                       {"why": "staged tree is not the canonical function of the directory contents (entry: [recorded, file's own digest])",
+                        "build": ["cold", "warm"][nth] if state_mode == "warm" else state_mode, "wrong_entries": wrong,
+                        "oid": b["oid"], "expected_oid": exp_oid})
+        exp_level = {kk[-1]: [name, d] for kk, d in digests.items() if kk[:-1] == level}
+        for label, got in v["level"].items():
+            exp = {fn: exp_level[fn] for fn in got} if label.startswith("alone:") else exp_level
+            ctx.oracle(got == exp, case,
+                       {"why": "digests recorded for one directory level depend on the hashing configuration (threads / large-file threshold / siblings)",
+                        "configuration": label, "wrong_entries": {fn: [got.get(fn), e] for fn, e in exp.items() if got.get(fn) != e}})
+
+
 def run_tree_history(ctx, n):
     """one Tree object that is queried (sub-tree, filter, listing) and then updated in place - entries re-added with a new hash,
     entries added - and queried again: every answer must equal the answer of a tree built afresh from the current entries"""
@@ -428,6 +560,9 @@ def run(ctx):
         "entry sets (1-7 files, nested, odd names incl. quotes/backslash/newline/non-ASCII/'.dir', empty or missing hashes, "
         "every Meta field combination) x 6 insertion orders x with/without meta; real directories staged with jobs in "
         "{None,1,2,8}; Tree objects queried, updated in place (entries re-added with new hashes) and queried again; >=2 files over 1 MiB (thread-pool path), state cold/warm/partially warm/warm with the other md5 flavour's hashes, creation order permuted; "
+        "real directories staged under each file-hash flavour {md5-dos2unix, md5, sha256} x 0-3 files over 1 MiB at one directory level "
+        "(CRLF text / LF text / binary holding CRLF) x jobs x state none/cold/warm, every entry compared with an independent per-file "
+        "digest, and that level re-hashed under jobs {1,2,8}, large-file thresholds {1 KiB, 1 MiB, 1 TiB} and with a large file on its own; "
         "non-trivial = >= 2 entries; distinct = sha256 of the canonical case"
     )
     ctx.assumptions = [
@@ -440,6 +575,7 @@ def run(ctx):
     run_entry_sets(ctx, ctx.n(400, 5000))
     run_roundtrip(ctx, ctx.n(150, 2000))
     run_build(ctx, ctx.n(60, 500))
+    run_build_flavours(ctx, ctx.n(24, 144))
     run_tree_history(ctx, ctx.n(120, 1500))
 
 
@@ -447,6 +583,7 @@ def search(ctx):
     run_entry_sets(ctx, 5000)
     run_roundtrip(ctx, 2000)
     run_build(ctx, 400)
+    run_build_flavours(ctx, 144)
     run_tree_history(ctx, 1500)
 
 
